@@ -29,7 +29,9 @@ pub fn run(check: &mut Check) {
     vcommon::abort::install(&check.id, "worlds", check.sub_seed("worlds", 0));
     let nworlds = std::env::var("VERIF_N").ok().and_then(|s| s.parse().ok()).unwrap_or(check.tier.pick(120usize, 2500));
     let vars = variants();
-    let worlds: Vec<ProxyWorld> = check.draw("worlds", &exec::world_strategy(false, false), nworlds);
+    let mut worlds: Vec<ProxyWorld> = check.draw("worlds", &exec::world_strategy(false, false), nworlds);
+    // constructed sequences (heap-owning case, then heap-less case, of the same result/parameter)
+    worlds.extend(crate::c05::constructed());
     let root = std::path::PathBuf::from("/verif/target/execcws");
     let _ = std::fs::remove_dir_all(&root);
     let members: Vec<CMember> = worlds
